@@ -45,7 +45,7 @@ pub mod non_fungible;
 mod merkle;
 #[cfg(kani)]
 mod registries;
-// smart-account families: only in their own profiles (sa_auth, sa_auth3: aw96; sa_rules: xdrdigest), CAP = 2 or 3
+// smart-account families: only in their own profiles (sa_auth, sa_glue: aw96; sa_rules: xdrdigest), CAP = 2 or 3
 #[cfg(all(kani, any(feature = "aw96", feature = "xdrdigest"), any(feature = "cap2", feature = "cap3"), not(feature = "cap8")))]
 mod smart_account;
 #[cfg(all(kani, any(feature = "aw96", feature = "xdrdigest"), any(feature = "cap2", feature = "cap3"), not(feature = "cap8")))]
